@@ -5,7 +5,8 @@
   Reading of the property on the model (Model/Lazy.lean):
     * in-scope namespaces of every element delivered by the lazy loader = the XML reading (ancestors'
       declarations, inner wins)                                   — `lazy_nsmaps_eq_inScope`
-      (the pinned *eager* loader is the one that deviates: `eager_nsmaps_counterexample`, finding C06-F4)
+      and the eager loader assigns the same maps               — `eager_nsmaps_eq_lazy`, `eager_nsmaps_eq_inScope`
+      (finding C06-F4, the eager loop without a pop in its 'end' branch, is fixed by commit 6d25df9)
     * lazy iteration yields every element exactly once             — `iter_lazy_order`, `iter_lazy_perm`
     * the chunk selectors yield exactly the elements of the lazy depth in document order with the right
       ancestors                                                    — `iter_depth_spec`, `iterfind_spec`
@@ -39,26 +40,27 @@ def wNs : Tree :=
 example : lazyNsmaps wNs = some [(0, []), (1, [("q", "u2")]), (2, [("q", "u2"), ("p", "u3")]), (3, [])] := by
   decide
 
-/-- FULL statement wanted by the property: `∀ t, eagerNsmaps t = lazyNsmaps t`.  False for the pinned eager
-    loader (`_parse` has no pop in its 'end' branch): after `<a xmlns:q=…><b xmlns:p=…/></a>` the sibling
-    `<d/>` still sees `q` (finding C06-F4; repaired loader = `popAtEnd := true` = `lazyNsmaps`). -/
-theorem eager_nsmaps_counterexample : eagerNsmaps wNs ≠ lazyNsmaps wNs ∧
-    eagerNsmaps wNs = some [(0, []), (1, [("q", "u2")]), (2, [("q", "u2"), ("p", "u3")]), (3, [("q", "u2")])] := by
+/-- The property for the in-scope namespaces, at full strength: for every document the fully loading loader
+    (`_parse`, as it is since commit 6d25df9) assigns to every element the same namespace map as the lazy loader.
+    The two loops are ported separately (`parseStep` / `nsStep true`); they agree event by event
+    (`parseStep_eq`), hence on every event stream. -/
+theorem eager_nsmaps_eq_lazy (t : Tree) : eagerNsmaps t = lazyNsmaps t := by
+  simp only [eagerNsmaps, lazyNsmaps, parseRun_eq]
+
+/-- …and that common map is the XML reading: the declarations of the ancestors-or-self, inner wins; the eager
+    loop never pops an empty stack either.  (Finding C06-F4 — declarations of a closed element leaking to its
+    following siblings — is repaired: this statement was false before 6d25df9, witness `wNs`.) -/
+theorem eager_nsmaps_eq_inScope (t : Tree) : eagerNsmaps t = some (inScope [] t) := by
+  rw [eager_nsmaps_eq_lazy, lazy_nsmaps_eq_inScope]
+
+example : eagerNsmaps wNs = some [(0, []), (1, [("q", "u2")]), (2, [("q", "u2"), ("p", "u3")]), (3, [])] := by
   decide
 
-/-- What does hold for the pinned eager loader: on documents where no element with namespace declarations
-    closes directly after a last child (chain) that also carried declarations (`eagerSafe`, decidable), its
-    maps are the in-scope maps, hence equal to the lazy ones. -/
-theorem eager_nsmaps_partial (t : Tree) (h : eagerSafe t = true) : eagerNsmaps t = some (inScope [] t) := by
-  obtain ⟨⟨h1, _, _, h4⟩, _⟩ := ns_inv_eager t NsSt.init [] [] h rfl rfl rfl
-  simp only [NsSt.init] at h1 h4
-  simp [eagerNsmaps, NsSt.init, h1, h4]
-
-def wNsSafe : Tree :=
-  .node 0 "r" [("p", "u1")] [.node 1 "a" [("q", "u2")] [.node 2 "b" [("p", "u3")] [], .node 3 "c" [] []],
-                             .node 4 "d" [] []]
-
-example : eagerSafe wNsSafe = true ∧ eagerSafe wNs = false := by decide
+/- why the pop in the 'end' branch is needed (the loop before 6d25df9; not a claim about the current code):
+   after `<a xmlns:q=…><b xmlns:p=…/></a>` the sibling `<d/>` still saw `q` -/
+example : unpoppedNsmaps wNs
+    = some [(0, []), (1, [("q", "u2")]), (2, [("q", "u2"), ("p", "u3")]), (3, [("q", "u2")])] := by
+  decide
 
 /-! ### iteration -/
 
